@@ -1,6 +1,43 @@
-(* C04 - statements only; proofs in the *Facts.v files. (grows) *)
-From Sbdf Require Import Va VaFacts PrimFacts ObjFacts.
-Theorem C04_value_array_wire : forall swp v, wf_va v -> byte_ok (vty v) ->
-  wspec (va_write swp v) (Ok tt) (enc_va swp v) /\ rspec (va_read swp None) (enc_va swp v) v.
-Proof. intros swp v W B. split; [exact (wspec_va swp v W)|exact (rspec_va swp v W B)]. Qed.
-Print Assumptions C04_value_array_wire.
+(* C04 — reader decodes every well-formed SBDF 1.0 stream.
+   wf_va / wf_cs / wf_ts describe every well-formed section, not only what this library's writer
+   emits: a run-length array is ANY pair of a run array and a value array (non-maximal runs, runs of
+   exactly 256, booleans, strings, binaries), any property names and counts, any encoding per
+   column, per property and per slice.  The readers return exactly the encoded content, whatever
+   follows, and the session reports end-of-table exactly at the end marker.  Statements only. *)
+From Sbdf Require Import File PrimFacts SevenBit ObjFacts VaFacts SliceFacts FileFacts.
+
+Theorem C04_value_array : forall swp v tail, wf_va v -> byte_ok (vty v) -> va_read swp None (enc_va swp v ++ tail) = Ok (v, tail).
+Proof. intros swp v tail W B. destruct (rspec_va swp v W B) as [E _]. apply E. Qed.
+Print Assumptions C04_value_array.
+
+Theorem C04_column_slice : forall swp c tail, wf_cs c -> cs_read swp None (enc_cs swp c ++ tail) = Ok (owned_cs c, tail).
+Proof. intros swp c tail W. destruct (rspec_cs swp c W) as [E _]. apply E. Qed.
+Print Assumptions C04_column_slice.
+
+Theorem C04_slices_until_end_marker : forall swp sls ncols fuel tail,
+  slices_ok ncols sls -> (length sls <= length fuel)%nat ->
+  read_slices swp None fuel ncols None (enc_slices swp sls ++ tail) = (map owned_ts sls, SBDF_TABLEEND, enc_end ++ tail).
+Proof. exact read_slices_exact. Qed.
+Print Assumptions C04_slices_until_end_marker.
+
+(* decoding what was read gives the logical values: a run-length array with arbitrary (valid)
+   runs decodes to the expansion of its runs *)
+Theorem C04_decode_any_runs : forall ty n runs vals,
+  obj_ok {| oty := ty; oelems := vals |} -> length runs = length vals -> rle_total runs = n ->
+  va_get_values {| vty := ty; venc := SBDF_RUNLENGTHENCODINGTYPEID; value1 := n;
+                   o1 := Some (byte_obj runs); o2 := Some {| oty := ty; oelems := vals |} |}
+  = Ok {| oty := ty; oelems := rle_expand runs vals |}.
+Proof.
+  intros ty n runs vals Hok Hl Ht. unfold va_get_values. cbn [venc].
+  change (SBDF_RUNLENGTHENCODINGTYPEID =? SBDF_PLAINARRAYENCODINGTYPEID) with false. cbn iota. rewrite Z.eqb_refl.
+  unfold get_rle_values. cbn [o1 o2 vty value1].
+  destruct (elem_size_ok _ Hok) as [S1 S2]. cbn [oty] in S1, S2. rewrite S1, S2.
+  rewrite map_run_of_byte_obj. unfold ocount. cbn [oelems byte_obj]. rewrite BaseFacts.zlen_map.
+  assert (zlen runs = zlen vals) by (unfold zlen; now rewrite Hl). rewrite H, Z.eqb_refl. cbn [negb].
+  rewrite Ht, Z.eqb_refl. reflexivity.
+Qed.
+Print Assumptions C04_decode_any_runs.
+
+Example C04_nonmaximal_runs :
+  rle_expand [0; 1; 255] [[7]; [7]; [9]] = [[7]; [7]; [7]] ++ repeat [9] 256.
+Proof. reflexivity. Qed.
